@@ -47,6 +47,21 @@ def apply_op(lasio, sec, op, item_factory=None):
         key = list.__getitem__(sec, pos(op[1], n)).mnemonic
         sec[key] = mk(op[2])
         return "replace"
+    if kind == "attr_new":
+        # section.NAME = item appends when NAME is not a key (only for names usable as attributes)
+        name = op[1]
+        if not name.isidentifier() or hasattr(type(sec), name) or name in sec:
+            return "skip"
+        setattr(sec, name, mk(name))
+        return "append"
+    if kind == "attr_replace":
+        if n == 0:
+            return "skip"
+        key = list.__getitem__(sec, pos(op[1], n)).mnemonic
+        if not key.isidentifier() or hasattr(type(sec), key):
+            return "skip"
+        setattr(sec, key, mk(op[2]))
+        return "replace"
     raise ValueError(op)
 
 
